@@ -6,6 +6,9 @@ use cascette_formats::CascFormat;
 use cascette_formats::bpsv::BpsvDocument;
 use std::time::Duration;
 use tokio::io::{AsyncReadExt, AsyncWriteExt};
+#[cfg(feature = "verif-hooks")]
+use crate::verif_hooks::TcpStream;
+#[cfg(not(feature = "verif-hooks"))]
 use tokio::net::TcpStream;
 use tracing::{debug, trace};
 
